@@ -49,7 +49,6 @@ class MultiFit(FitBase):
         self._fits = list(fit_list)  # will raise TypeError if fit_list is not iterable
         self._shared_error_dicts = dict()
         self._shared_error_nodes_initialized = False
-        self._min_x_error = None
         # The fitters of the individual fits are replaced during initialization.
         # Their fixed and limited parameters are carried over to the new fitters and to the MultiFit.
         _fixed_parameters = OrderedDict()
@@ -326,6 +325,10 @@ class MultiFit(FitBase):
             par_names=_x_cov_mat_names,
             add_children=False,
         )
+        # the step size of the numerical derivatives is derived from the x errors
+        for _derivatives_name, _fit_i in zip(_derivative_names, [_f for _f in self._fits if _f._cost_function.is_chi2]):
+            if isinstance(_fit_i, XYFit):
+                self._nexus.add_dependency(name=_derivatives_name, depends_on="x_cov_mat")
         self._nexus.add_function(
             func=_combine_1d_property,
             func_name="derivatives",
@@ -505,6 +508,16 @@ class MultiFit(FitBase):
         self._on_error_change()
         return name
 
+    @property
+    def _min_x_error(self):
+        # always derived from the current x errors: sources can also be added to the individual fits directly
+        _x_cov_mat_node = self._nexus.get("x_cov_mat")
+        if _x_cov_mat_node is None:
+            return None
+        _x_errors = np.sqrt(np.diag(_x_cov_mat_node.value))
+        _non_zero_x_errors = _x_errors[_x_errors > 0.0]
+        return None if len(_non_zero_x_errors) == 0 else np.min(_non_zero_x_errors)
+
     def _on_error_change(self):
         if not self._shared_error_nodes_initialized:
             self._init_shared_error_nodes()
@@ -512,9 +525,6 @@ class MultiFit(FitBase):
         for _fit in self._fits:
             _fit._on_error_change()
 
-        _x_errors = np.sqrt(np.diag(self._nexus.get("x_cov_mat").value))
-        _non_zero_x_errors = _x_errors[_x_errors > 0.0]
-        self._min_x_error = None if len(_non_zero_x_errors) == 0 else np.min(_non_zero_x_errors)
         # the model derivatives (zero without x errors) and the total covariance depend on the x errors
         for _i in range(len(self._fits)):
             _derivatives_node = self._nexus.get("derivatives%s" % _i)
